@@ -24,38 +24,35 @@ def run(R):
         R.saw(b)
         R.eq(tonic.const('codec::DEFAULT_MAX_RECV_MESSAGE_SIZE').get('v'), W['default_max_recv'], 'C06.R1', 'default-recv-const', 'tonic/src/codec/mod.rs', 'DEFAULT_MAX_RECV_MESSAGE_SIZE')
         test = None
+        has_prefix = lambda x: term_contains(x, lambda y: is_call(y, name='get_u32'))
         for bb in sorted(b.live_blocks()):
-            t = b.term(bb)
-            if t['k'] != 'switch':
-                continue
-            o = mirlib.norm_cmp(b.origin(t['on']))
-            if o[0] == 'bin' and o[1] in ('Gt', 'Ge', 'Lt', 'Le') and (term_contains(o[2], lambda x: is_call(x, name='get_u32')) or term_contains(o[3], lambda x: is_call(x, name='get_u32'))):
-                test = (bb, o)
+            lt = limit_test(b, bb, has_prefix)
+            if lt is not None:
+                test = (bb, lt)
         if test is None:
             raise CheckError('UNRECOGNISED: no comparison of the prefix length with a limit in decode_chunk')
-        tb, o = test
-        R.check(o[1] == 'Gt' and term_contains(o[2], lambda x: is_call(x, name='get_u32')), 'C06.R1', 'operator', site(b, tb), 'limit test is %s(%s, %s); required Gt(len, limit)' % (o[1], show(o[2])[:80], show(o[3])[:80]))
-        lim = strip_refs(o[3])
-        R.check(is_call(lim, name='unwrap_or') and mentions_field(lim[2][0], 'max_message_size') and const_val(lim[2][1]) == W['default_max_recv'], 'C06.R1', 'limit-source', site(b, tb),
-                'limit = %s' % show(lim))
-        edges = b.switch_edges(tb)
-        true_t = [t for t, vals in edges.items() if vals == ['else'] or (0 not in vals and 'else' not in vals)]
-        false_t = [t for t, vals in edges.items() if vals == [0]]
-        errs = [(bb, i, ops) for bb, i, p, a, ops in mirlib.aggregates(b, 'result::Result', 'Err') if p['l'] == 0]
-        over = [(bb, i, ops) for bb, i, ops in errs if any(s == tb and (vals == ['else'] or 0 not in vals) for s, vals, tm in b.edge_guards(bb))]
-        R.check(len(over) == 1, 'C06.R1', 'oversize-err', site(b, tb), 'Err returns on the len > limit edge: %d' % len(over))
+        tb, lt = test
+        R.check(lt['exact'], 'C06.R1', 'operator', site(b, tb), 'limit test %s(%s, %s): a length equal to the limit is accepted, one byte more is rejected: %r' % (lt['op'], show(lt['len'])[:60], show(lt['limit'])[:60], lt['exact']))
+        lim = strip_refs(lt['limit'])
+        R.check(option_or_default(lim, 'max_message_size', W['default_max_recv']), 'C06.R1', 'limit-source', site(b, tb), 'limit = %s' % show(lim))
+        # everything that can follow the reject edge (path-sensitively: a helper's Err is followed through `?`)
+        rej = b.reach_ps(lt['reject'], removed={tb}) if lt['reject'] else set()
+        over = [(bb, i, ops) for bb, i, p, a, ops in mirlib.aggregates(b, 'result::Result', 'Err') if bb in rej]
+        R.check(len(over) == 1, 'C06.R1', 'oversize-err', site(b, tb), 'Err values built after the reject edge: %d' % len(over))
         for bb, i, ops in over:
             R.check(is_call(strip_refs(b.origin(ops[0])), pat='Status::out_of_range'), 'C06.R1', 'oversize-out_of_range', site(b, bb, i), 'status = %s' % show(b.origin(ops[0]))[:100])
-        # reserve and ReadBody dominated by the false edge
+        oks = [bb for bb, i, p, a, ops in mirlib.aggregates(b, 'result::Result', 'Ok') if p['l'] == 0 and bb in rej]
+        R.check(not oks, 'C06.R1', 'oversize-never-ok', site(b, oks[0]) if oks else site(b, tb), 'no Ok(..) return is reachable from the reject edge: %r' % (not oks))
+        # reserve and ReadBody unreachable from the reject edge, and not reachable around the test
+        around = b.reach_ps(0, removed={tb})
         for rb_, rt in b.calls(name='reserve'):
-            gs = b.edge_guards(rb_)
-            R.check(any(s == tb and vals == [0] for s, vals, tm in gs), 'C06.R1', 'reserve-after-test', site(b, rb_), 'reserve(%s) guarded by the false edge of the limit test' % show(b.origin(rt['args'][1]))[:60])
+            R.check(rb_ not in rej and rb_ not in around, 'C06.R1', 'reserve-after-test', site(b, rb_), 'reserve(%s) is reached only through the accept edge of the limit test' % show(b.origin(rt['args'][1]))[:60])
         for nm in ('with_capacity', 'resize', 'reserve_exact'):
             for cb_, ct in b.calls(name=nm):
-                R.check(any(s == tb and vals == [0] for s, vals, tm in b.edge_guards(cb_)), 'C06.R1', '%s-after-test' % nm, site(b, cb_), '%s guarded by the limit test' % nm)
+                R.check(cb_ not in rej and cb_ not in around, 'C06.R1', '%s-after-test' % nm, site(b, cb_), '%s guarded by the limit test' % nm)
         rbs = mirlib.aggregates(b, 'decode::State', 'ReadBody')
         for bb, i, p, a, ops in rbs:
-            R.check(any(s == tb and vals == [0] for s, vals, tm in b.edge_guards(bb)), 'C06.R1', 'readbody-after-test', site(b, bb, i), 'State::ReadBody is entered only on the false edge of the limit test')
+            R.check(bb not in rej and bb not in around, 'C06.R1', 'readbody-after-test', site(b, bb, i), 'State::ReadBody is entered only through the accept edge of the limit test')
             ln = b.origin(ops[a['fields'].index('len')])
             R.check(term_contains(ln, lambda x: is_call(x, name='get_u32')), 'C06.R1', 'readbody-len-from-prefix', site(b, bb, i), 'ReadBody.len = %s' % show(ln)[:80])
         R.floor('C06.R1', 'ReadBody sites', len(rbs), 1)
@@ -107,16 +104,11 @@ def run(R):
     with R.guard('C06.R3'):
         b = tonic.body(re.compile(r'codec::encode::EncodedBytes<T, U> as .*Stream>::poll_next$'))
         R.saw(b)
-        err_rets = []
+        # every place an Err item is built (where it is built decides under which guards it can be returned)
+        err_rets = [(bb, b.origin(ops[0])) for bb, i, p, a, ops in mirlib.aggregates(b, 'result::Result', 'Err')]
         for bb in writers_of(b, 0):
             for w in block_writes(b, bb, 0):
-                if w[0] == 'variant' and w[2] == 'Ready':
-                    inner = strip_refs(w[3][0])
-                    if inner[0] == 'agg' and inner[1].get('variant') == 'Some':
-                        i2 = strip_refs(inner[2][0])
-                        if i2[0] == 'agg' and i2[1].get('variant') == 'Err':
-                            err_rets.append((bb, i2[2][0]))
-                elif w[0] == 'call' and w[3] == 'from_residual':
+                if w[0] == 'call' and w[3] == 'from_residual':
                     err_rets.append((bb, ('call', 'from_residual', [], 'from_residual', None)))
         R.floor('C06.R3', 'error returns', len(err_rets), 3)
         for bb, payload in err_rets:
